@@ -14,6 +14,20 @@ ASSUMPTIONS = [
 ]
 
 
+def replay(ctx, cases_file, label, corrupt_fn, min_cases):
+    """ctx.replay, with the binding self-test run only when the replay itself found nothing new: the self-test corrupts
+    predictions and needs the real code to agree with the uncorrupted ones; when the tree under test already disagrees
+    (an unknown failing signature) the corrupted prediction may happen to match it, which says nothing about the binding."""
+    from vlib import load_known
+    s = ctx.replay(cases_file, label=label, min_cases=min_cases, selftest=False)
+    known = load_known(ctx.pid)
+    if all(sig in known for sig in s['sig_counts']):
+        ctx.selftest(ctx.path(cases_file), ctx.pid, corrupt_fn, label)
+    else:
+        ctx.log(f'{label}: binding self-test skipped (the replay already disagrees with the specification)')
+    return s
+
+
 def corrupt(case, rnd):
     """Corrupt one compared prediction of a sandbox/delivery case."""
     c = copy.deepcopy(case)
